@@ -97,7 +97,13 @@ class RelayModules(object):
     s['RELAY_METHOD'] = 'consistent-hashing'
     s['DESTINATION_PROTOCOL'] = cfg.get('protocol', 'pickle')
     s['DESTINATION_POOL_REPLICAS'] = False
-    s['USE_RATIO_RESET'] = False
+    # USE_RATIO_RESET: a destination whose sent/received ratio of the previous interval is below MIN_RESET_RATIO has its
+    # connection reset (the statistics themselves are set by the Slow / Fast events of a run)
+    s['USE_RATIO_RESET'] = bool(cfg.get('ratio', False))
+    s['MIN_RESET_STAT_FLOW'] = 1
+    s['MIN_RESET_RATIO'] = 0.9
+    s['MIN_RESET_INTERVAL'] = 0
+    s['TIME_TO_DEFER_SENDING'] = cfg.get('defer', 0.0001)
     s['TAG_RELAY_NORMALIZED'] = False
     s['METRIC_CLIENT_IDLE_TIMEOUT'] = None
     s['TCP_KEEPALIVE'] = False
@@ -121,7 +127,8 @@ class RelayModules(object):
                        LowC=int(math.ceil(low)), MaxPerMsg=cfg['mpm'],
                        Flow='TRUE' if cfg.get('flow', True) else 'FALSE',
                        Dynamic='TRUE' if cfg.get('dynamic', False) else 'FALSE',
-                       MaxRetries=cfg.get('max_retries', 1), RF=cfg.get('rf', 1))
+                       MaxRetries=cfg.get('max_retries', 1), RF=cfg.get('rf', 1),
+                       Ratio='TRUE' if cfg.get('ratio', False) else 'FALSE')
 
 
 class DestTransport(StringTransport):
@@ -164,6 +171,7 @@ class RelayRun(object):
     rm.state.connectedMetricReceiverProtocols.clear()
     rm.state.client_manager = None
     rm.instrumentation.stats.clear()
+    rm.instrumentation.prior_stats.clear()
     self.reactor = FakeReactor(self)
     rm.client.reactor = self.reactor
     from twisted.application.service import MultiService
@@ -256,23 +264,27 @@ class RelayRun(object):
     nr = self.cfg.get('nr', 1)
     p['rconn'] = [c in self.recv for c in range(1, nr + 1)]
     p['prod'] = [(self.recv[c][1].producerState == 'producing') if c in self.recv else True for c in range(1, nr + 1)]
-    p['closedNonEmpty'] = bool(self.closed_nonempty)
+    p['newclose'] = list(getattr(self, 'newclose', [False] * len(self.dests)))
+    p['wac'] = list(getattr(self, 'wac', [False] * len(self.dests)))
     return p
 
   def record(self, name, arg, **extra):
     if name == 'Init':
       self.factories = dict((d, self.mgr.client_factories[d]) for d in self.dests)
       self.fake = self.mgr.client_factories[None]
-    # stop closing a connection whose queue still holds datapoints?
+    # a connection that begins to close while its queue still holds datapoints / bytes written to a connection that is
+    # already closing: reported per callback; Relay_Trace decides whether a connection-quality reset explains them
+    self.newclose, self.wac = [], []
     for d in self.dests:
       f = self.factories[d]
       trs = self.transports.get(d, [])
-      if trs and trs[-1].disconnecting and len(f.queue) > 0 and not getattr(trs[-1], '_seen_closing', False):
-        self.closed_nonempty = True
-      if trs and getattr(trs[-1], 'wrote_after_close', False):
-        self.closed_nonempty = True         # the connection was closed first, the rest of the queue written afterwards
-      if trs and trs[-1].disconnecting:
-        trs[-1]._seen_closing = True
+      tr = trs[-1] if trs else None
+      self.newclose.append(bool(tr is not None and tr.disconnecting and not getattr(tr, '_seen_closing', False) and len(f.queue) > 0))
+      self.wac.append(bool(tr is not None and tr.wrote_after_close))
+      if tr is not None:
+        tr.wrote_after_close = False
+        if tr.disconnecting:
+          tr._seen_closing = True
     e = dict(e=name, arg=arg, routes=self.routes, p=self.project())
     e.update(extra)
     self.routes = []
@@ -302,13 +314,17 @@ class RelayRun(object):
     if not self.stopped:
       out.append(('Arrive', 0))
       out.append(('ArriveHi', 0))
+      if self.cfg.get('ratio'):
+        out.append(('Fast', 0) if self.slow else ('Slow', 0))
     return out
+
+  slow = False
 
   stopped = False
 
   def fire(self, name, arg):
     rm = self.rm
-    d = self.dests[arg - 1] if name not in ('Arrive', 'ArriveHi', 'Stop', 'RConnect', 'RDisconnect') else None
+    d = self.dests[arg - 1] if name not in ('Arrive', 'ArriveHi', 'Stop', 'RConnect', 'RDisconnect', 'Slow', 'Fast') else None
     f = self.factories[d] if d is not None else None
     c = self.connectors.get(d) if d is not None else None
     extra = {}
@@ -370,6 +386,14 @@ class RelayRun(object):
       from twisted.internet.error import ConnectionDone
       r, tr = self.recv.pop(arg)
       r.connectionLost(Failure(ConnectionDone()))
+    elif name in ('Slow', 'Fast'):
+      # the self-metrics report of the interval just ended: much received, (nearly) nothing sent / all of it sent
+      ps = rm.instrumentation.prior_stats
+      ps.clear()
+      self.slow = name == 'Slow'
+      ps['metricsReceived'] = 1000
+      for d2 in self.dests:
+        ps['destinations.%s.sent' % self.factories[d2].destinationName] = 10 if self.slow else 1000
     else:
       raise Machinery('unknown event %s' % name)
     self.record(name, arg, **extra)
@@ -389,6 +413,8 @@ class RelayRun(object):
           todo = ('ConnMade', i + 1)
         elif p['cs'][i] == 'connected' and p['pconn'][i] and p['tp'][i]:
           todo = ('TResume', i + 1)
+        elif p['cs'][i] == 'connected' and not p['pconn'][i] and not self.stopped:
+          todo = ('ConnLost', i + 1)        # a connection closed by a quality reset goes away
         if todo:
           break
       if not todo:
@@ -405,7 +431,7 @@ def random_run(rm, cfg, rng, nevents, settle=True, weights=None):
   run.build()
   try:
     w = dict(Arrive=6, ArriveHi=1, SendTimer=5, ConnMade=3, ConnLost=1, ConnFailed=1, RetryTimer=3,
-             TPause=1, TResume=2, Stop=0.15, RConnect=1, RDisconnect=0.4)
+             TPause=1, TResume=2, Stop=0.15, RConnect=1, RDisconnect=0.4, Slow=0.7, Fast=0.5)
     w.update(weights or {})
     for _ in range(nevents):
       en = run.enabled()
@@ -423,7 +449,7 @@ def random_run(rm, cfg, rng, nevents, settle=True, weights=None):
   return run.trace()
 
 
-def scripted_run(rm, cfg, events, settle=False):
+def scripted_run(rm, cfg, events, settle=False, max_settle=200):
   """events: list of (name, arg); events not enabled on the code are reported."""
   run = RelayRun(rm, cfg)
   run.build()
@@ -435,7 +461,7 @@ def scripted_run(rm, cfg, events, settle=False):
         break
       run.fire(n, a)
     if settle:
-      run.settle()
+      run.settle(max_settle)
   finally:
     run.teardown()
   return run.trace(), skipped
